@@ -96,6 +96,8 @@ def check(prog, rep, tier):
         # ------------------------------------------------------------ candidates
         f, flows = insert_flows(prog, ctx)
         okc = True
+        from ..effects import Effects
+        E = Effects(prog)
         for p, fl in flows:
             for (rule, msg, e) in fl.problems:
                 if rule == "own.candidate":
@@ -109,6 +111,23 @@ def check(prog, rep, tier):
                 for iv in idxvars:
                     v = strip_epochs([e.value for e in pre if e.name == iv][-1])
                     want = ("call", ("ext", "random", "choice"), (("lst", (("p", "idx_1"), ("p", "idx_2"))),), ())
+                    # ... or the candidates computed afresh for the entry in hand (after the table was re-sized, the only valid ones)
+                    fresh = None
+                    if v[0] == "call" and v[1] == ("ext", "random", "choice") and len(v[2]) == 1 and v[2][0][0] in ("lst", "tup") and len(v[2][0][1]) == 2:
+                        a_, b_ = v[2][0][1]
+                        if a_[0] == "sub" and b_[0] == "sub" and a_[1] == b_[1] and {a_[2], b_[2]} == {C(0), C(1)} and a_[1][0] == "ret" \
+                                and a_[1][1].endswith("._indicies_from_fingerprint") and a_[1][3][-1:] == (("p", "fingerprint"),):
+                            fresh = a_[1]
+                    choice_ev = [e for e in pre if e.name == iv][-1]
+                    resized = [e for e in p.events[:p.events.index(choice_ev)] if e.kind == "call" and e.target is not None and not e.d.get("inlined")
+                               and any(x[0] == "self" and x[1] == "_cuckoo_capacity" for x in E.of(ctx, e.target))]
+                    if fresh is not None and not [e for e in resized if p.events.index(e) > max([i for i, x in enumerate(p.events) if x.kind == "call" and strip_epochs(x.d.get("result") or ()) == fresh] or [-1])]:
+                        continue
+                    if resized and fresh is None:
+                        rep.bad("C15.candidate", f"{ctx}.{f.src_name}", "stale candidates after a re-size",
+                                f"the eviction starts from {nshow(v)}, candidates computed before {resized[0].name}() changed the capacity: they are not the entry's candidates in the new table", resized[0].where())
+                        okc = False
+                        continue
                     if v != want and v != ("call", ("ext", "random", "choice"), (("lst", (("p", "idx_2"), ("p", "idx_1"))),), ()):
                         rep.bad("C15.candidate", f"{ctx}.{f.src_name}", f"start index {nshow(v)}", "the eviction starts from an index that is not one of the new entry's two candidates", f.where())
                         okc = False
